@@ -202,6 +202,22 @@ def _refs_function(trees, path, node):
 def _refs_method(trees, path, owner, node, static, classm=False):
     name = node.name
     inside = {id(n) for n in ast.walk(owner)}
+    if not static:
+        # `self.helper(...)` written in a subclass is the same method (no
+        # class redefines it: checked below)
+        parents = {}
+        classes = [k for t in trees.values() for k in ast.walk(t)
+                   if isinstance(k, ast.ClassDef)]
+        for k in classes:
+            parents[k.name] = {(b.attr if isinstance(b, ast.Attribute)
+                                else getattr(b, 'id', '?')) for b in k.bases}
+
+        def inherits(kname, seen=()):
+            return any(b == owner.name or (b not in seen and inherits(
+                b, seen + (b,))) for b in parents.get(kname, ()))
+        for k in classes:
+            if k is not owner and inherits(k.name):
+                inside |= {id(n) for n in ast.walk(k)}
     calls = []
     by_func = {}
     for p, tree in trees.items():
@@ -563,6 +579,20 @@ def _tailify(stmts):
             out.append(new)
             return out
         if isinstance(st, ast.Try) and not st.finalbody and \
+                not stmts[i + 1:] and not st.orelse and st.body and \
+                isinstance(st.body[-1], ast.Return) and \
+                not any(_contains_return(b) for b in st.body[:-1]):
+            # try: ...; return v / except E: <return or raise>   (last
+            # statement of the helper): every return is a tail already
+            handlers = [ast.copy_location(ast.ExceptHandler(
+                type=h.type, name=h.name,
+                body=_tailify(h.body) or [_pass(h)]), h)
+                for h in st.handlers]
+            out.append(ast.copy_location(ast.Try(
+                body=st.body, handlers=handlers, orelse=[], finalbody=[]),
+                st))
+            return out
+        if isinstance(st, ast.Try) and not st.finalbody and \
                 not any(_contains_return(b) for b in st.body) and \
                 _contains_return(st):
             # try: BODY / except E: ...return x / REST  ->
@@ -738,6 +768,16 @@ def _finish(stmts, mode, targets, at):
         orelse = _finish(last.orelse, mode, targets, at)
         return stmts[:-1] + [ast.copy_location(
             ast.If(test=last.test, body=body, orelse=orelse), last)]
+    if isinstance(last, ast.Try) and _contains_return(last) and \
+            not last.finalbody and last.body and \
+            isinstance(last.body[-1], ast.Return):
+        handlers = [ast.copy_location(ast.ExceptHandler(
+            type=h.type, name=h.name,
+            body=_finish(h.body, mode, targets, at) or [_pass(h)]), h)
+            for h in last.handlers]
+        return stmts[:-1] + [ast.copy_location(ast.Try(
+            body=_finish(last.body, mode, targets, at) or [_pass(last)],
+            handlers=handlers, orelse=[], finalbody=[]), last)]
     if isinstance(last, ast.Try) and _contains_return(last) and \
             not last.finalbody:
         handlers = [ast.copy_location(ast.ExceptHandler(
